@@ -16,7 +16,7 @@ extern "C" {
 extern int g_verbose;
 
 // ---------------------------------------------------------------- generator
-static void gen_writer_cfg(Plan &p, Rng &r, bool allow_pool, bool allow_wfrag, bool allow_prefix)
+void gen_writer_cfg(Plan &p, Rng &r, bool allow_pool, bool allow_wfrag, bool allow_prefix)
 {
 	p.seti("comp", r.below(6));
 	static const int levels[] = { -1000000, -2, -1, 0, 1, 3, 6, 9, 12, 19, 22, 1000 };
@@ -38,7 +38,7 @@ static void gen_writer_cfg(Plan &p, Rng &r, bool allow_pool, bool allow_wfrag, b
 	p.seti("rinitfd", r.below(2));
 }
 
-static size_t draw_n(Rng &r)
+size_t draw_n(Rng &r)
 {
 	uint64_t d = r.below(100);
 	if (d < 10) return r.below(4);
@@ -47,7 +47,7 @@ static size_t draw_n(Rng &r)
 	return 200 + r.below(201);
 }
 
-static void gen_sorted_adds(Plan &p, Rng &r, size_t n, int big_pm)
+void gen_sorted_adds(Plan &p, Rng &r, size_t n, int big_pm)
 {
 	KeyGen kg(r);
 	std::set<Bytes, bool (*)(const Bytes &, const Bytes &)> keys(bytes_less);
@@ -227,6 +227,9 @@ static bool parse_dump_line(const std::string &line, Bytes &k, Bytes &v)
 }
 
 
+std::vector<sim_wfault> g_tablelib_wlist;
+sim_wstats g_tablelib_wstats;
+
 bool tablelib_write(const Plan &p, RunResult &res, const std::string &path, TableModel &model,
 		    const std::vector<Op> &adds, bool check_gate, Bytes *prefix_out)
 {
@@ -252,7 +255,9 @@ bool tablelib_write(const Plan &p, RunResult &res, const std::string &path, Tabl
 		mtbl_writer_options_set_threadpool(wo, tp);
 	}
 	std::string wf = p.gets("wfrag", "none");
-	if (wf != "none") {
+	if (wf == "list") {
+		sim_wfault_arm_list(g_tablelib_wlist.data(), g_tablelib_wlist.size());
+	} else if (wf != "none") {
 		int sh = 0, ei = 0; unsigned long long sd = 0;
 		sscanf(wf.c_str(), "p:%d:%d:%llu", &sh, &ei, &sd);
 		sim_wfault_arm_profile(sd, sh, ei);
@@ -304,6 +309,7 @@ bool tablelib_write(const Plan &p, RunResult &res, const std::string &path, Tabl
 	}
 	if (wf != "none") {
 		sim_wstats ws; sim_wstats_get(&ws); sim_wfault_disarm();
+		g_tablelib_wstats = ws;
 		if (ws.shorts) res.faults["short-write"] += ws.shorts;
 		if (ws.eintrs) res.faults["write-eintr"] += ws.eintrs;
 		if (ws.eintr_runs2) res.probes["eintr-twice-in-a-row"] += ws.eintr_runs2;
